@@ -94,16 +94,32 @@ move=> mk; apply: mk; apply/implyP => ne.
 by case: eqP => //= a0; case: eqP => //= b0; rewrite a0 b0 eqxx in ne.
 Qed.
 
+(* only two things matter about the comparisons a loop uses: the verdict on equal operands
+   (initial verdict) and the strict comparison on different ones (loop, under the mask) *)
+Definition is_refl (c : cop) : bool := match c with CGe | CLe => true | _ => false end.
+Definition strict (c : cop) : cop := match c with CGt | CGe => CGt | CLt | CLe => CLt end.
+Definition init_refl (code : cmp_code) : bool := if cc_init code is Some c then is_refl c else false.
+
+Lemma cfun_refl c (x : R) : cfun c x x = is_refl c.
+Proof. by case: c; rewrite /= ?ltxx ?lexx. Qed.
+
+Lemma cfun_strict c (x y : R) : x != y -> cfun c x y = cfun (strict c) x y.
+Proof. by case: c => //= ne; rewrite le_eqVlt ?(negbTE ne) // eq_sym (negbTE ne). Qed.
+
 Lemma cmp_cols_elem code i : (i < m)%N -> mask_ok code ->
   nth false (cmp_cols code order ca cb m) i
   = last (if cc_init code is Some c then cfun c (cell ca 0 i) (cell cb 0 i) else false)
-         [seq cfun (cc_loop code) (cell ca k i) (cell cb k i) | k <- order & cell ca k i != cell cb k i].
+         [seq cfun (strict (cc_loop code)) (cell ca k i) (cell cb k i) | k <- order & cell ca k i != cell cb k i].
 Proof.
 move=> lt mk; rewrite /cmp_cols.
 rewrite (nth_foldl_rows (fun k j old =>
    if bexp_eval (cc_mask code) (cell ca k j != 0) (cell cb k j != 0) (cell ca k j != cell cb k j)
    then cfun (cc_loop code) (cell ca k j) (cell cb k j) else old)) //.
 rewrite (nth_map 0%N) ?size_iota // nth_iota // add0n.
+set b0 := (if cc_init code is Some _ then _ else _).
+have -> : [seq cfun (strict (cc_loop code)) (cell ca k i) (cell cb k i) | k <- order & cell ca k i != cell cb k i]
+        = [seq cfun (cc_loop code) (cell ca k i) (cell cb k i) | k <- order & cell ca k i != cell cb k i].
+  by apply/eq_in_map => k; rewrite mem_filter => /andP[ne _]; rewrite -cfun_strict.
 rewrite -foldl_lww; apply: eq_foldl2 => acc k.
 by rewrite mask_cell.
 Qed.
@@ -133,60 +149,73 @@ case: (altP (x k =P y k)) => [e|ne] /=.
 by rewrite map_rcons last_rcons eq_sym (negbTE ne) andFb orbF leNgt.
 Qed.
 
+Lemma last_lt_lex_neg (x y : nat -> R) (b0 : bool) (s : seq nat) :
+  (all (fun k => x k == y k) s -> b0 = true) ->
+  last b0 [seq x k < y k | k <- s & x k != y k] = ~~ lexlt [seq y k | k <- rev s] [seq x k | k <- rev s].
+Proof.
+move=> h; rewrite -(last_le_lex h); congr (last _ _).
+by apply/eq_in_map => k; rewrite mem_filter => /andP[ne _]; rewrite le_eqVlt (negbTE ne).
+Qed.
+
 Hypothesis zero_in : 0%N \in order.
 
 Lemma init_eq i : all (fun k => cell ca k i == cell cb k i) order -> cell ca 0 i = cell cb 0 i.
 Proof. by move/allP => /(_ _ zero_in) /eqP. Qed.
 
+Lemma init_val code i : all (fun k => cell ca k i == cell cb k i) order ->
+  (if cc_init code is Some c then cfun c (cell ca 0 i) (cell cb 0 i) else false) = init_refl code.
+Proof. by move/init_eq => ->; rewrite /init_refl; case: (cc_init code) => // c; rewrite cfun_refl. Qed.
+
+Lemma flip_filter i (F : nat -> bool) :
+  [seq F k | k <- order & cell cb k i != cell ca k i] = [seq F k | k <- order & cell ca k i != cell cb k i].
+Proof. by congr (map _ _); apply: eq_filter => k; rewrite eq_sym. Qed.
+
+Lemma flip_all i : all (fun k => cell cb k i == cell ca k i) order = all (fun k => cell ca k i == cell cb k i) order.
+Proof. by apply: eq_all => k; rewrite eq_sym. Qed.
+
 Theorem verdict_lt code i : (i < m)%N -> mask_ok code ->
-  cc_init code = Some CLt -> cc_loop code = CLt ->
+  init_refl code = false -> strict (cc_loop code) = CLt ->
   nth false (cmp_cols code order ca cb m) i = lexlt (vec ca i) (vec cb i).
 Proof.
-move=> lt mk ci cl; rewrite cmp_cols_elem // ci cl /=.
-by apply: last_lt_lex => /init_eq ->; rewrite ltxx.
+move=> lt mk ci cl; rewrite cmp_cols_elem // cl /=.
+by apply: last_lt_lex => /(init_val code) ->.
 Qed.
 
 Theorem verdict_gt code i : (i < m)%N -> mask_ok code ->
-  cc_init code = Some CGt -> cc_loop code = CGt ->
+  init_refl code = false -> strict (cc_loop code) = CGt ->
   nth false (cmp_cols code order ca cb m) i = lexlt (vec cb i) (vec ca i).
 Proof.
-move=> lt mk ci cl; rewrite cmp_cols_elem // ci cl /=.
-have := @last_lt_lex (fun k => cell cb k i) (fun k => cell ca k i) (cell cb 0 i < cell ca 0 i) order.
-rewrite (eq_filter (a2 := fun k => cell ca k i != cell cb k i)); last by move=> k; rewrite eq_sym.
-by apply => al; rewrite (@init_eq i) ?ltxx //; apply: sub_all al => k; rewrite eq_sym.
+move=> lt mk ci cl; rewrite cmp_cols_elem // cl /= -flip_filter.
+by apply: (@last_lt_lex (fun k => cell cb k i) (fun k => cell ca k i)); rewrite flip_all => /(init_val code) ->.
 Qed.
 
 Theorem verdict_le code i : (i < m)%N -> mask_ok code ->
-  cc_init code = Some CLe -> cc_loop code = CLe ->
+  init_refl code = true -> strict (cc_loop code) = CLt ->
   nth false (cmp_cols code order ca cb m) i = ~~ lexlt (vec cb i) (vec ca i).
 Proof.
-move=> lt mk ci cl; rewrite cmp_cols_elem // ci cl /=.
-by apply: last_le_lex => /init_eq ->; rewrite lexx.
+move=> lt mk ci cl; rewrite cmp_cols_elem // cl /=.
+by apply: last_lt_lex_neg => /(init_val code) ->.
 Qed.
 
 Theorem verdict_ge code i : (i < m)%N -> mask_ok code ->
-  cc_init code = Some CGe -> cc_loop code = CGe ->
+  init_refl code = true -> strict (cc_loop code) = CGt ->
   nth false (cmp_cols code order ca cb m) i = ~~ lexlt (vec ca i) (vec cb i).
 Proof.
-move=> lt mk ci cl; rewrite cmp_cols_elem // ci cl /=.
-have := @last_le_lex (fun k => cell cb k i) (fun k => cell ca k i) (cell cb 0 i <= cell ca 0 i) order.
-rewrite (eq_filter (a2 := fun k => cell ca k i != cell cb k i)); last by move=> k; rewrite eq_sym.
-by apply => al; rewrite (@init_eq i) ?lexx //; apply: sub_all al => k; rewrite eq_sym.
+move=> lt mk ci cl; rewrite cmp_cols_elem // cl /= -flip_filter.
+by apply: (@last_lt_lex_neg (fun k => cell cb k i) (fun k => cell ca k i)); rewrite flip_all => /(init_val code) ->.
 Qed.
 
 (* maximum / minimum: no initial verdict; "a is chosen" iff a is strictly larger / smaller *)
 Theorem verdict_select_gt code i : (i < m)%N -> mask_ok code ->
-  cc_init code = None -> cc_loop code = CGt ->
+  cc_init code = None -> strict (cc_loop code) = CGt ->
   nth false (cmp_cols code order ca cb m) i = lexlt (vec cb i) (vec ca i).
 Proof.
-move=> lt mk ci cl; rewrite cmp_cols_elem // ci cl /=.
-have := @last_lt_lex (fun k => cell cb k i) (fun k => cell ca k i) false order.
-rewrite (eq_filter (a2 := fun k => cell ca k i != cell cb k i)); last by move=> k; rewrite eq_sym.
-by apply.
+move=> lt mk ci cl; rewrite cmp_cols_elem // ci cl /= -flip_filter.
+exact: (@last_lt_lex (fun k => cell cb k i) (fun k => cell ca k i)).
 Qed.
 
 Theorem verdict_select_lt code i : (i < m)%N -> mask_ok code ->
-  cc_init code = None -> cc_loop code = CLt ->
+  cc_init code = None -> strict (cc_loop code) = CLt ->
   nth false (cmp_cols code order ca cb m) i = lexlt (vec ca i) (vec cb i).
 Proof.
 move=> lt mk ci cl; rewrite cmp_cols_elem // ci cl /=.
